@@ -65,13 +65,23 @@ def batches(draw):
     # twins: a later entry that is an exact copy of an earlier game, or the same game with ONE fault
     # (container-type faults first: they survive most serialisations)
     for j in range(1, k):
-        what = draw(st.integers(0, 8))
-        if what > 3:
+        what = draw(st.integers(0, 10))
+        if what > 4:
             continue
         i = draw(st.integers(0, j - 1))
         if entries[i]["kind"] != "stopping":
             continue
-        if what == 3:
+        if what == 4:
+            # a sibling: the same rewards, owners and transition lists, OTHER final states (among the absorbing ones)
+            sib = copy.deepcopy(entries[i]["game"])
+            absorbing = [s_ for s_, l in enumerate(sib["transition_list"]) if l and all(t_ == s_ for _, t_ in l)]
+            old = set(sib["final_states"])
+            options = [[a] for a in absorbing if {a} != old] + ([sorted(old | {a}) for a in absorbing if a not in old])
+            if not options:
+                continue
+            sib["final_states"] = list(draw(st.sampled_from(options)))
+            entries[j] = dict(kind="stopping", game=sib, twin_of=i)
+        elif what == 3:
             # a sibling: the same transition lists and final states, the owners of the player states flipped
             sib = copy.deepcopy(entries[i]["game"])
             sib["players"] = [P2 if p == P1 else P1 if p == P2 else p for p in sib["players"]]
@@ -163,9 +173,13 @@ def check_case(case):
     # solo references
     ref = {}
     removes = []
+    from harness.load import fresh_instance
     for i, e in enumerate(entries):
-        a = solo(e["game"], True, facts[i])
-        b = solo(e["game"], False, facts[i])
+        # "solving that game alone": in a freshly imported instance of the repository's modules, so that nothing
+        # an earlier solve in this process may have cached (per process, per class, per default argument) is inherited
+        with fresh_instance():
+            a = solo(e["game"], True, facts[i])
+            b = solo(e["game"], False, facts[i])
         if a is None or b is None:
             v.inconclusive = "conditioned game T_c > limit / budget in the reference solve"
             return v
